@@ -78,7 +78,7 @@ func init() {
 		"Decides: the four remaining-length encoders are structurally identical and encode exactly the value that was tested against packetMax; on every option combination and per loop iteration the remaining length equals the number of bytes appended after it (symbolic linear forms); every 16-bit length prefix is emitted for a string some validator bounds to 65,535; the CONNECT flag bits equal, on every option path, the set of optional fields emitted (Will QoS/Retain only with the Will Flag, Password only with User Name, bit 0 clear); stringCheck accepts only behind len ≤ stringMax judged at its boundary values, valid UTF-8 and a NUL search whose not-found result is told apart from position 0, topicCheck only non-empty strings that passed stringCheck; validators dominate the first side effect of every request method and constructor and no deny error is returned after one; validator sentinels are in denyErrs; identifier spaces are disjoint, non-zero and 16-bit. Not decided: full decode round-trip for all inputs, UTF-8 classification (utf8.ValidString trusted), that no valid argument is denied.",
 		asmCommon)
 	prop("C10", "the read routine never wedges", "§4 C10",
-		[]string{"RCH-1", "OWN-7", "TOK-1", "TOK-4", "TOK-5", "TOK-6", "TOK-7", "TOK-11", "ORD-5", "ORD-6", "ORD-7", "ORD-13", "ORD-14", "ERR-5"},
+		[]string{"RCH-1", "OWN-7", "TOK-1", "TOK-4", "TOK-5", "TOK-6", "TOK-7", "TOK-11", "ORD-5", "ORD-6", "ORD-7", "ORD-13", "ORD-14", "ERR-5", "TOK-8", "TOK-14"},
 		"call-graph reachability; token typestate; must-pass-through; rendezvous rule",
 		lvlCommon, noteCommon,
 		"Decides: no function reachable from readSlices contains a wait-for-connect cycle (a CFG cycle through a receive from writeSem); read-routine fields and connect/toOffline/termCallbacks are confined to the read routine; failures are noticed (the connection is never redeposited after a failed write; every error return of readSlices except connect/marker-Save/BigMessage passes toOffline), toOffline closes, deposits connPending, clears readConn/bufr/peek/bigMessage and releases waiting requests after the token exchange; every failure exit of connect closes the new connection and deposits connDown; lock order acyclic, nothing foreign blocks under the write token, every goroutine rendezvous has its partner on all paths; callback channels never block the responder; ReadBackoff returns nil only for ErrClosed and otherwise a channel closed by a bounded timer. Not decided: that a dial eventually succeeds; timing bounds.",
@@ -90,7 +90,7 @@ func init() {
 		"Decides: after a slot is installed every exit received from its own callback or removed its own slot; the registry is accessed under its mutex, inserts are dominated by the window test and by a failed lookup of the same identifier; the answer goes to the channel and filters returned by the single endTx call keyed with the identifier parsed from that packet; callbacks are answered only after removal from their registry, with capacity ≥ the sends of a life cycle; toOffline and termCallbacks release all waiting requests with ErrBreak; error classes per method and quit ⇒ ErrCanceled/ErrAbandoned. Known finding F7 (Ping empties the shared slot without identity check) is reported as KNOWN-FINDING. Not decided: absence of starvation under real schedules.",
 		asmCommon)
 	prop("C12", "Close and Disconnect from any state", "§4 C12",
-		[]string{"TOK-1", "TOK-2", "TOK-3", "TOK-7", "TOK-8", "TOK-11", "PAN-2", "PAN-4", "ORD-7", "ORD-8", "ERR-2"},
+		[]string{"TOK-1", "TOK-2", "TOK-3", "TOK-7", "TOK-8", "TOK-11", "PAN-2", "PAN-4", "ORD-7", "ORD-8", "ERR-2", "TOK-14"},
 		"token typestate (closer summaries, closed-aware receives); rendezvous rule; must-pass-through",
 		lvlCommon, noteCommon,
 		"Decides: Close/Disconnect cancel the context before waiting for connSem, take connSem, take or interrupt the writer, and close both tokens exactly once while holding both (a second call sees the closed channel and touches nothing); every receive from a closable token is comma-ok or under the closer's lock; the dialAndConnect watcher and the termCallbacks goroutines have their rendezvous partner on every path; signal flips happen under the write token with the opposite signal blocked first; no method is called on a connSignal or nil connection; ReadSlices calls termCallbacks on ErrClosed, queued exchanges get ErrClosed and stay open; DISCONNECT is the last packet; not-submitted classes imply no wire call. Not decided: 'promptly' as a time bound; goroutine-leak freedom beyond the spawned closures having exits on all paths.",
